@@ -253,6 +253,8 @@ impl FlushWorker {
                 }
             };
 
+            #[cfg(feature = "sim-hooks")]
+            crate::sim_hooks::gate("flush.done", format!("s{}/{:05}", self.shard_id, segment_id)).await;
             self.flush_progress.mark_completed(flush_id);
 
             // Always send completion signal, even on error/panic
